@@ -190,6 +190,8 @@ ExplainsDecode(b, p, mode, op, e, o) ==
                       /\ (it.class = "must" => o.cnt = 1)
             ELSE \/ o.st = "ok" /\ o.off = p + it.len /\ o.cnt = 1 /\ o.sb = it.val
                  \/ o.st = "err" /\ it.class # "must" /\ o.cnt = 0
+       [] op = "NestedBad" ->      \* DecodeNested into a message of a runtime that rejects the (well-delimited) payload: the error propagates
+            o.st = "err"
        [] op = "NestedMsg" ->      \* DecodeNested into a real message; same = 1: it equals the original
             LET it == RefBytes(b, p) IN
             IF it.class = "rej" THEN o.st = "err"
